@@ -4,6 +4,7 @@ import time
 import traceback
 
 import z3
+from .values import fresh_name, to_z3
 
 from . import engine as E
 from .contracts import load_all
@@ -61,8 +62,23 @@ def _make_inputs_factory(c, info, ctx):
             env[vararg] = ()
         for k, v in ctx.sizes.items():
             env.setdefault(k, v)
+        # recursive spec functions of the contract (options["recdefs"] = [(name, [int args], body clause)]): counting functions
+        # over the inputs, defined with z3's recursive-function facility (unfolded on demand)
+        ctx.recfuns = {}
+        for (rname, rargs, rbody) in (c.options.get("recdefs") or []):
+            _REC_COUNTER[0] += 1
+            f = z3.RecFunction(f"rec_{rname}_{_REC_COUNTER[0]}", *([z3.IntSort()] * len(rargs)), z3.IntSort())
+            zs = [z3.Int(fresh_name("r_" + a)) for a in rargs]
+            ctx.recfuns[rname] = (lambda ex_, a_, k_, n_, f=f: f(*[to_z3(x, "int") for x in a_]))
+            cenv = dict(env)
+            cenv.update(dict(zip(rargs, zs)))
+            body = ex.eval_clause(rbody, cenv, None)
+            z3.RecAddDefinition(f, zs, to_z3(body, "int"))
         return env
     return make_inputs
+
+
+_REC_COUNTER = [0]
 
 
 def verify_function(qualname, options=None, timeout_ms=10000, repo_root=None):
